@@ -29,7 +29,7 @@ type World struct {
 	preHooks    map[string]func(*Frame, *State)
 	genericPre  []func(*Frame, *State, *Contract)
 	genericPost []func(*Frame, *State, *Contract, *Scope)
-	stats       struct{ unrolled, cut int }
+	stats       struct{ unrolled, cut, feasQueries, pruned int }
 	inlined     map[string]bool
 	assumedSet  map[string]bool
 	ctUses      map[string]bool
